@@ -25,6 +25,7 @@ Inductive pc :=
 | PRes (q : req)                          (* about to fetch_add the position (reserved) counter *)
 | PChkF (q : req) (b : N)                 (* KIter: about to load the completed flag *)
 | PLdY (q : req) (b : N)                  (* KIter: about to load the yielded counter *)
+| PChkT (q : req) (b : N)                 (* KIter: it is the thread's turn (b = yielded): about to load the completed flag once more *)
 | PSrc (q : req) (b : N) (got : list N)   (* KIter: about to call the wrapped next(); positions obtained so far, latest first *)
 | PSetF (q : req) (b : N) (got : list N)  (* KIter: about to store completed := true (saw None) *)
 | PPub (q : req) (b : N) (got : list N)   (* KIter: about to fetch_add the yielded counter *)
@@ -431,6 +432,7 @@ Definition single (q : req) : bool := match q_mode q with MSingle _ => true | _ 
 Definition o_res (q : req) : ord := if single q then ord_counter_fetch_and_increment else ord_counter_fetch_and_add.
 Definition o_chkf (q : req) : ord := if single q then ord_completed_load_get else ord_completed_load_progress.
 Definition o_ldy (q : req) : ord := if single q then ord_yielded_read_get else ord_yielded_read_progress.
+Definition o_chkt (q : req) : ord := if single q then ord_completed_load_get_turn else ord_completed_load_progress_turn.
 Definition o_setf (q : req) : ord := if single q then ord_completed_store_get else ord_completed_store_complete.
 Definition o_pub (q : req) : ord := if single q then ord_yielded_publish_single else ord_yielded_publish_chunk.
 
@@ -460,9 +462,13 @@ Definition step (e : env) (c : cfg) (t : tid) : cfg :=
   | PLdY q b =>
       let y := s_y sh in
       let l := LAtom t SY ALoad 0 y (o_ldy q) in
-      if b =? y then commit c t sh (set_pc ts (PSrc q b [])) l []
+      if b =? y then commit c t sh (set_pc ts (PChkT q b)) l []
       else if b <? y then finish e c t sh ts l q (Ok PREnd)
       else commit c t sh (set_pc ts (PChkF q b)) l []
+  | PChkT q b =>
+      let l := LAtom t SF ALoad 0 (bN (s_f sh)) (o_chkt q) in
+      if s_f sh then finish e c t sh ts l q (Ok PREnd)
+      else commit c t sh (set_pc ts (PSrc q b [])) l []
   | PSrc q b got =>
       if crashes_now e sh then
         commit c t (with_src sh (s_cur sh) (s_calls sh + 1)) (set_pc ts (PUnw q b got)) (LSrcPanic t) []
